@@ -247,8 +247,10 @@ pub enum Outcome<R> {
 
 /// One execution of `body` under the tape `prefix`.
 pub fn run_once<R>(cfg: &Cfg, prefix: &[u32], body: impl FnOnce() -> R) -> (Outcome<R>, TapeLog) {
-    CTX.with(|c| {
-        *c.borrow_mut() = Some(Ctx {
+    // Re-entrant: while `body` blocks on a rayon pool, this (worker) thread may steal and run another
+    // explorer job to completion; the interrupted execution's context is saved here and restored below.
+    let prev = CTX.with(|c| {
+        c.borrow_mut().replace(Ctx {
             prefix: prefix.to_vec(),
             menu: cfg.menu.clone(),
             default: ChaCha12Rng::seed_from_u64(cfg.seed),
@@ -257,7 +259,7 @@ pub fn run_once<R>(cfg: &Cfg, prefix: &[u32], body: impl FnOnce() -> R) -> (Outc
         })
     });
     let r = std::panic::catch_unwind(std::panic::AssertUnwindSafe(body));
-    let ctx = CTX.with(|c| c.borrow_mut().take()).unwrap();
+    let ctx = CTX.with(|c| std::mem::replace(&mut *c.borrow_mut(), prev)).expect("tape context lost");
     let log = ctx.log;
     let out = match r {
         Ok(v) => {
